@@ -72,7 +72,9 @@ TAGS = {'sortv': F41, 'placeholder': F42, 'sqlite_order': F43}
 FMT_CORE = ['zip_pickle', 'zip_csv', 'zip_tsv', 'sqlite']
 FMT_OPTIONAL = {'xlsx': ('openpyxl', 'xlsxwriter'), 'hdf5': ('tables',), 'zip_parquet': ('pyarrow',)}
 EXT = {'zip_pickle': '.zip', 'zip_csv': '.zip', 'zip_tsv': '.zip', 'zip_parquet': '.zip', 'sqlite': '.sqlite', 'xlsx': '.xlsx', 'hdf5': '.hdf5'}
-NAME_POOL = ['a', 'b', 'c', 'd', 'e', 'f', 'g', 'zz', 'ab', 'Hx', 'x1', 'Q']  # distinct ignoring case (SQLite table names)
+NAME_POOL = ['a', 'b', 'c', 'd', 'e', 'f', 'g', 'zz', 'ab', 'Hx', 'x1', 'Q',  # distinct ignoring case (SQLite table names)
+             # labels holding the text of a contained-file extension (the zip stores append one to the label, finding F77)
+             'x.csv.y', 'p.txt', '.pickle', 'w.pickle.v', 'n.csv', 't.txt.u']
 BASE_NS = 1_500_000_000 * 10 ** 9
 
 _STATE = {}
